@@ -53,7 +53,10 @@ def build_case(rng, kind, names_I, names_E, thorough):
     node_type = rng.choice(['LEGENDRE', 'LEGENDRE', 'EQUID', 'CHEBY-1'])
     do_coll = rng.random() < 0.4
     dim = rng.randint(1, 3)
-    inject = rng.random() < 0.5
+    inject = rng.random() < 0.75
+    if not inject:      # exact images of the float tables: keep the exact rationals small enough for the kernel
+        M = min(M, 3)
+        dim = min(dim, 2)
     sp = {'num_nodes': M, 'quad_type': quad, 'node_type': node_type, 'do_coll_update': do_coll}
     nI, nE = rng.choice(names_I), rng.choice(names_E)
     nI2 = rng.choice(names_I)
@@ -525,7 +528,7 @@ def run(ck):
     if len(names_I) < 20 or len(names_E) < 3:
         ck.violation('sweepers accept suspiciously few preconditioner names', {'implicit': names_I, 'explicit': names_E}, match={'kind': 'names'})
 
-    n_cases = 1600 if thorough else 200
+    n_cases = 2000 if thorough else 320
     from pySDC.core.errors import CollocationError
     cases = []
     hist = {}
